@@ -27,10 +27,16 @@ def get_reserved_words():
     from mindsdb_sql.parser.dialects.mindsdb.lexer import MindsDBLexer
 
     reserved = RESERVED_KEYWORDS
-    for word in SQLLexer.tokens | MindsDBLexer.tokens:
-        if '_' not in word:
-            # exclude combinations
-            reserved.add(word)
+    for lexer in (SQLLexer, MindsDBLexer):
+        for word in lexer.tokens:
+            if '_' not in word:
+                # exclude combinations
+                reserved.add(word)
+            else:
+                # ... except keywords that are spelled with an underscore (PRIMARY_KEY, ML_ENGINE)
+                pattern = getattr(lexer, word, None)
+                if isinstance(pattern, str) and re.fullmatch(pattern, word):
+                    reserved.add(word)
     return reserved
 
 
